@@ -400,7 +400,7 @@ def run(ctx, col: Collector):
         col.floor('C01-fields', 'blueprint classes', len(bps), 11)
         for cname, ci in sorted(bps.items()):
             flds = dataclass_fields(ci)
-            build = ci.methods.get('build')
+            build = idx.lookup_method(ci.id, 'build')
             if build is None:
                 raise AnchorMissing(f'{cname}.build')
             for f in flds:
